@@ -15,7 +15,7 @@ from .c13 import owners, struct_fields
 META = {
     "level": "other",
     "technique": "wire-signature agreement of read/write per chunk type (typed HIR) + symbolic dependence analysis of the coordinate formulas",
-    "claim": "Decides layout agreement for every WDT Chunk impl and every WDL record with a parse/write pair, size() vs bytes written for fixed-size chunks, that the MWMO presence rule is the same call on the read and write side, and that the two coordinate functions are axis-consistent inverses up to truncation (same constants, output i of the round trip depends on input i only). Does not evaluate floats over the 4096 tiles. Also: MPHD file-id slots agree between reader and writer; WDL offset advances are paired with chunk registration; no collection is read before it is populated; the inverse snaps grid-line quotients with a tolerance above the f32 error bound. Wave 5: conversion steps compose (steps(a->b) = steps(a->m) ∪ steps(m->b) over all version triples); WDL capability tables have no gap and exactly one model-table family per version. Wave 6: optional WDT chunks are written whenever present (MWMO under the reader's own version rule); convert_wdl_file refuses on presence (is_empty/len), never on values. Wave 7: every field of a record with a linear read/write pair is read by its write; detect_version consults chunk presence before header flags.",
+    "claim": "Decides layout agreement for every WDT Chunk impl and every WDL record with a parse/write pair, size() vs bytes written for fixed-size chunks, that the MWMO presence rule is the same call on the read and write side, and that the two coordinate functions are axis-consistent inverses up to truncation (same constants, output i of the round trip depends on input i only). Does not evaluate floats over the 4096 tiles. Also: MPHD file-id slots agree between reader and writer; WDL offset advances are paired with chunk registration; no collection is read before it is populated; the inverse snaps grid-line quotients with a tolerance above the f32 error bound. Wave 5: conversion steps compose (steps(a->b) = steps(a->m) ∪ steps(m->b) over all version triples); WDL capability tables have no gap and exactly one model-table family per version. Wave 6: optional WDT chunks are written whenever present (MWMO under the reader's own version rule); convert_wdl_file refuses on presence (is_empty/len), never on values. Wave 7: every field of a record with a linear read/write pair is read by its write; detect_version consults chunk presence before header flags. Wave 8: size() of a variable-size chunk scales with what write() walks (reader-fixed tables exempt); conversions leave the tile table alone.",
     "note": "Trusted: primitive widths; f32 arithmetic is not modelled (only the expression shape).",
     "assumptions": ["floor/truncation of a value exactly on a tile boundary is outside the structural claim"],
     "explanation": "wow_wdt::chunks::{Mver,Mphd,Main,Mwmo,Modf,Maid}Chunk read/write/size, wow_wdl::types::* parse/write, WdtReader::read / WdtWriter::write should_have_chunk calls, tile_to_world / world_to_tile.",
